@@ -11,9 +11,9 @@
 //! The object reference is `start + REF_OFFSET`.
 use mmtk::util::{Address, ObjectReference};
 
-#[cfg(feature = "var_b")]
+#[cfg(feature = "layout_b")]
 pub const REF_OFFSET: usize = 0;
-#[cfg(not(feature = "var_b"))]
+#[cfg(not(feature = "layout_b"))]
 pub const REF_OFFSET: usize = 8;
 
 pub const HEADER_BYTES: usize = 32;
